@@ -570,7 +570,20 @@ fn perform_trials(
         eval.set_best_size(max_size);
     }
     eval.try_image(image);
-    eval.get_best_candidate()
+    let result = eval.get_best_candidate();
+    // A compressed result of the earlier evaluation is a completed trial of this image too,
+    // so do not discard it for a larger one
+    match (result, eval_result) {
+        (Some(new), Some(prev))
+            if prev.data_is_compressed
+                && (prev.estimated_output_size, prev.filter)
+                    < (new.estimated_output_size, new.filter) =>
+        {
+            Some(prev)
+        }
+        (None, Some(prev)) if prev.data_is_compressed => Some(prev),
+        (new, _) => new,
+    }
 }
 
 #[derive(Debug)]
